@@ -308,12 +308,18 @@ def run(tier, seed):
                 chk.nontrivial((label, state))
     # ---- (3) portfolios with their own time grid
     for z in zoo.ZOO:
-        for tz in (None, 'CET', 'UTC', 'aware_utc'):
+        # (the last two: the SAME instants as the UTC grids, given in another zone -- grids read earlier in the same process must not matter)
+        for tz in (None, 'CET', 'UTC', 'aware_utc', 'same_instants_CET', 'same_instants_America/New_York'):
             name, pf, pr, tg = z(seed)
             if tz == 'aware_utc':      # grid given by zone-aware start / end, no explicit zone
                 if tg.freq != 'h':
                     continue
                 tgz = A.Timegrid(pd.Timestamp(S0, tz='UTC'), pd.Timestamp(S0 + tg.T * H, tz='UTC'), freq='h')
+            elif tz.startswith('same_instants_') if tz else False:
+                if tg.freq != 'h':
+                    continue
+                zn = tz[len('same_instants_'):]
+                tgz = A.Timegrid(pd.Timestamp(S0, tz='UTC').tz_convert(zn), pd.Timestamp(S0 + tg.T * H, tz='UTC').tz_convert(zn), freq='h')
             else:
                 tgz = zoo.grid(tg.T, tz=tz) if tg.freq == 'h' else tg
             pf.set_timegrid(tgz)
@@ -333,7 +339,9 @@ def run(tier, seed):
                 chk.violation(dict(sel, step='save_load', error=type(e).__name__), 'portfolio save/load raised %s: %s' % (type(e).__name__, str(e)[:100]), dict(portfolio=name))
                 continue
             g2 = getattr(pf2, 'timegrid', None)
-            if g2 is None or list(g2.timepoints) != list(tgz.timepoints) or str(g2.tz) != str(tgz.tz):
+            # (time stamps compare equal across zones: the zone of the points is compared on its own, and the local wall-clock times as text)
+            if g2 is None or list(g2.timepoints) != list(tgz.timepoints) or str(g2.tz) != str(tgz.tz) \
+                    or str(getattr(g2.timepoints, 'tz', None)) != str(getattr(tgz.timepoints, 'tz', None)) or [str(t) for t in g2.timepoints] != [str(t) for t in tgz.timepoints]:
                 chk.violation(dict(sel, step='grid_survives'), 'the time grid of the loaded portfolio differs (points or zone): zone %s vs %s' % (getattr(g2, 'tz', None), tgz.tz), dict(portfolio=name))
                 continue
             try:
